@@ -402,7 +402,7 @@ PROPS['C04']['bounds'] = '2 declarations over 11 kinds (3 in the thorough tier);
 PROPS['C10']['files'] = list(PROPS['C10']['files']) + ['pysmi/searcher/pypackage.py']
 PROPS['C10']['functions'] = list(PROPS['C10']['functions']) + ['pysmi.searcher.pypackage.PyPackageSearcher.fileExists (egg loader branch and package-directory branch)']
 PROPS['C10']['stubs'] = list(PROPS['C10']['stubs']) + ['a fake package object in sys.modules (with a loader exposing a ZIP file table, or with __file__ inside the model file system); struct.unpack replaced in pysmi.searcher.pypackage']
-PROPS['C10']['outside'] = ['real zipimport loaders and real .pyc header layout (the header is modelled as magic + one time field)', 'case folding of module names by PyPackageSearcher', 'real file systems']
+PROPS['C10']['outside'] = ['real zipimport loaders (the egg branch runs on a fake loader; the .pyc header of the running interpreter is exercised by C10.exec.PyFileSearcher.real-pyc)', 'case folding of module names by PyPackageSearcher', 'real file systems']
 
 PROPS['C14']['modules'] = PROPS['C14']['modules'] + ['harness.x14']
 PROPS['C14']['stubs'] = list(PROPS['C14']['stubs']) + ['EXEC conditions (C14.exec.*): no stubs - the unmodified readers on real temporary directories and real nested ZIP files, once per solver-explored shape']
